@@ -132,7 +132,9 @@ func (g *gen) inject(c *Cfg, e *Env) {
 			}
 			a := &c.Apps[g.rng.Intn(len(c.Apps))]
 			if a.IsHTTP() {
-				if g.rng.Chance(2, 5) && len(a.Listen) > 0 {
+				if g.rng.Chance(1, 4) && len(a.Listen) > 0 {
+					a.Fault = 7 // listen_protocols of the first listener: h2c without h1
+				} else if g.rng.Chance(2, 5) && len(a.Listen) > 0 {
 					a.Fault = 6 // certificate management cannot be started once every listener is up
 				} else if g.rng.Chance(1, 2) || len(a.Listen) == 0 || a.Listen[len(a.Listen)-1] >= NAddr {
 					a.Fault = 2
@@ -410,6 +412,27 @@ func (g *gen) enumerated() [][]Op {
 	c.Apps[2].Listen = []int{2, 6, 2}
 	add(c, Env{})
 	add(next(), Env{Post: true})
+	// listen_protocols with an h1-less first listener (must be refused when provisioning, before
+	// anything is bound), on an address the running config serves, alone and combined with a later
+	// listener that cannot bind / a later app that fails to start / the post-start step failing
+	{
+		run := Cfg{Apps: []App{{Name: 3, Tag: 1, Listen: []int{0, 1}}}}
+		f := Env{Force: true}
+		h := func(l ...int) Cfg { return Cfg{Apps: []App{{Name: 3, Tag: 2, Fault: 7, Listen: l}}} }
+		tail := []Op{{Kind: 'L', Cfg: Cfg{Apps: []App{{Name: 3, Tag: 3, Listen: []int{0, 2}}}}, Env: f}, {Kind: 'S'}}
+		for _, mid := range []Op{
+			{Kind: 'L', Cfg: h(0), Env: f},
+			{Kind: 'L', Cfg: h(0, 2), Env: Env{Force: true, Blocked: []int{2}}},
+			{Kind: 'L', Cfg: h(1, 0, 3), Env: Env{Force: true, Blocked: []int{3}}},
+			{Kind: 'L', Cfg: h(0, 2), Env: Env{Force: true, Post: true}},
+			{Kind: 'L', Cfg: Cfg{Apps: []App{{Name: 1, Tag: 4, Fault: 5}, {Name: 3, Tag: 2, Fault: 7, Listen: []int{0}}}}, Env: f},
+			{Kind: 'P', App: App{Name: 3, Tag: 2, Fault: 7, Listen: []int{0, 2}}, Env: Env{Force: true, Blocked: []int{2}}},
+			{Kind: 'V', Cfg: h(0, 2)},
+		} {
+			out = append(out, append([]Op{{Kind: 'L', Cfg: cloneCfg(run), Env: f}, mid}, tail...))
+		}
+		out = append(out, []Op{{Kind: 'L', Cfg: h(4), Env: f}, {Kind: 'L', Cfg: h(4, 5), Env: Env{Force: true, Blocked: []int{5}}}, {Kind: 'S'}})
+	}
 	// a reverse proxy with an upgraded stream open at the moment its configuration ends, closing the
 	// stream fails (Cleanup reports an error): ended by a replacement, by Stop, three times in a row,
 	// surviving a late-rejected load, and in a configuration that is itself rejected late
